@@ -270,7 +270,7 @@ def gdef_todo_level(ctx):
              "GCaretByIndex": "    LigatureCaretByIndex f_i 2;\n", "GAttach": "    Attach a 1;\n"}
     cases, meta = [], []
     combos = [None, ()] + [c for r in (1, 2, 3) for c in itertools.combinations(PARTS, r)]
-    for user in combos:
+    for user, before in [(u, b) for u in combos for b in ("", "table head {\n    FontRevision 1.100;\n} head;\n")]:
         for has_cat in (False, True):
             for has_caret in (False, True):
                 glyphs = [{"name": "a", "unicodes": [0x61], "width": 500, "contours": [], "anchors": []},
@@ -280,9 +280,11 @@ def gdef_todo_level(ctx):
                 fea = "" if user is None else "table GDEF {\n" + "".join(PARTS[k] for k in user) + "} GDEF;\n"
                 if user == ():
                     fea = "table GDEF {\n} GDEF;\n"
+                fea = before + fea          # (another table block first: the user's GDEF is found wherever it stands)
                 desc = {"glyphs": glyphs, "features": fea,
                         "lib": {"public.openTypeCategories": {"a": "base", "acutecomb": "mark", "f_i": "ligature"}} if has_cat else {}}
-                case = {"user_GDEF": None if user is None else list(user), "has_categories": has_cat, "has_caret_anchors": has_caret}
+                case = {"user_GDEF": None if user is None else list(user), "has_categories": has_cat, "has_caret_anchors": has_caret,
+                        "features": fea}
                 ctx.count(); ctx.klass("gdef-todo")
                 try:
                     font = build_font(desc)
@@ -372,6 +374,10 @@ def compile_level(ctx):
                       "caret-pos": "    LigatureCaretByPos f_i 222;\n", "caret-index": "    LigatureCaretByIndex f_i 2;\n"}
         gdef_variant = [None, ("classes",), ("caret-pos",), ("caret-index",), ("classes", "caret-index"), None][i % 6]
         if gdef_variant:
+            if (i // 6) % 2 == 0:
+                # other hand-written table blocks before the GDEF one
+                parts.append(["table head {\n    FontRevision 1.100;\n} head;\n", "table hhea {\n    CaretOffset 0;\n} hhea;\ntable OS/2 {\n    WeightClass 400;\n} OS/2;\n"][(i // 12) % 2])
+                ctx.klass("user GDEF after other table blocks")
             parts.append("table GDEF {\n" + "".join(GDEF_PARTS[k] for k in gdef_variant) + "} GDEF;\n")
         fea = "".join(parts)
         glyphs = [{"name": n, "unicodes": [u] if u else [], "width": 0 if n == "acutecomb" else 500,
